@@ -138,6 +138,15 @@ def D8():
     assert all(bool(r.match("ax")) == bool(re.fullmatch("a|b", "ax")) for r in c.dict_keys_regex), "ax matches ^a|b$"
 
 
+def D11():
+    import typing
+    code, _ = _pipeline([{"a": "\U0001F600"}, {"a": "\u00e9"}])
+    m = _load(code)
+    args = set(typing.get_type_hints(m.Root)["a"].__args__)
+    assert args == {"\U0001F600", "\u00e9"}, args
+    m.Root.parse_obj({"a": "\U0001F600"})
+
+
 def D13():
     samples = [{"a": None}, {"a": ["1"]}]
     for fw in ("attrs", "dataclasses"):
